@@ -857,16 +857,40 @@ def mon_C17(walk, d):
                     got = topic
             if want is not None and got != want:
                 out.append(("server-reconstructs-wrong-topic", f"operation {tag}: server reconstructs {got}, application topic is {want}", p["first_step"]))
-    # inbound: surfaced topic = latest binding; covered against the reference client table
-    for i, (o, note) in enumerate(zip(walk.out, walk.notes)):
-        sp = note.get("srv_publish")
-        if sp:
-            f, segs = resp_fields(o)
-            for s in segs:
-                if s.startswith("publish "):
-                    _, kv = parse_kv(s)
-                    if kv_get(kv, "topic") == "x":
-                        out.append(("empty-topic-surfaced", "a publish with an empty topic was surfaced to the application", i))
+    # inbound: the reference client table, per connection (bindings never survive a reconnect): an alias-only PUBLISH is
+    # surfaced with the topic bound to that alias on this connection, and rejected when there is no such binding
+    for c in d["conns"]:
+        table = {}
+        end = c.close_step if c.close_step is not None else len(walk.script)
+        for i in range(c.open_step, end):
+            note = walk.notes[i]
+            sp = note.get("srv_publish")
+            if not sp or note.get("tainted") or (getattr(c, "taint_step", None) is not None and c.taint_step <= i):
+                continue
+            if c.error_step is not None and c.error_step < i:
+                break
+            f, segs = resp_fields(walk.out[i])
+            surfaced = [s for s in segs if s.startswith("publish ")]
+            for s in surfaced:
+                _, kv = parse_kv(s)
+                if kv_get(kv, "topic") == "x":
+                    out.append(("empty-topic-surfaced", "a publish with an empty topic was surfaced to the application", i))
+            alias, topic = sp.get("alias"), sp.get("topic")
+            if alias is None:
+                continue
+            if topic:
+                if 1 <= alias <= walk.client_tam and f.get("res") == "ok":
+                    table[alias] = topic
+                continue
+            # alias only
+            if alias not in table:
+                if f.get("res") == "ok":
+                    out.append(("stale-or-unknown-alias-accepted", f"an alias-only PUBLISH for alias {alias}, which is not bound on connection {c.index}, was accepted"
+                                                                   + (" and surfaced" if surfaced else ""), i))
+            elif surfaced:
+                _, kv = parse_kv(surfaced[0])
+                if unhex(kv_get(kv, "topic", "x")) != table[alias]:
+                    out.append(("inbound-wrong-topic", f"alias {alias} is bound to {table[alias]!r} on this connection, the application was given {kv_get(kv, 'topic')}", i))
     return out
 
 
